@@ -3,7 +3,7 @@
 import sys, json, re, collections
 txt = open(sys.argv[1]).read()
 fields = sys.argv[2].split(",")
-N = int(sys.argv[3]) if len(sys.argv) > 3 else 40
+N = int(sys.argv[3]) if len(sys.argv) > 3 else 12
 blocks = re.split(r"\n(?=TRIAGE)", txt)
 c = collections.Counter(); ex = {}
 for b in blocks:
